@@ -206,7 +206,8 @@ pub fn cmd_ser(args: &[String]) -> i32 {
                                     (pv, 2 + body.len() - rem.len(), again) }
                                 Err(e) => (json!({"error": format!("{:?}", e)}), 0, json!("error")),
                             };
-                            json!({"ok": true, "bytes": b, "parsed": parsed, "consumed": consumed, "bytes2": b2, "direct": b})
+                            let via_client = match parse_tls_client_hello_extensions(body) { Ok((_, l)) => { let mut pv = pj::exts(&l); pj::materialize(&mut pv, &b); pv } Err(e) => json!({"error": format!("{:?}", e)}) };
+                            json!({"ok": true, "bytes": b, "parsed": parsed, "parsed_via_client_hello": via_client, "consumed": consumed, "bytes2": b2, "direct": b})
                         }
                     }
                 }
